@@ -30,7 +30,7 @@ def shards(tier):
 
 
 def required_classes(tier):
-    return ["honest:basic", "honest:aug", "honest:pop", "pop", "reject:range", "reject:type", "keygen", "keygen:retry(W5)", "key:boundary", "key:bitlen", "key:random",
+    return ["honest:custom-suite", "honest:basic", "honest:aug", "honest:pop", "pop", "reject:range", "reject:type", "keygen", "keygen:retry(W5)", "key:boundary", "key:bitlen", "key:random",
             "msg:empty", "msg:block-boundary", "msg:pk"]
 
 
@@ -98,6 +98,17 @@ def run(rec):
             honest(rec, suite, S, sk, m, nontrivial=nt or not (len(m) <= 32 and all(32 <= c < 127 for c in m)))
         if (i // 16) % 3 == 0 or not quick:
             pop(rec, suites["pop"], sk, nontrivial=nt)
+    # ---- user-derived suites (another hash function / other tags): the same round trips must hold
+    custom = bmon.custom_suites(cs)
+    for j, (key, Sx) in enumerate(custom.items()):
+        if (j + rec.shard) % 3 and quick:
+            rec.case("honest:custom-suite", None, nontrivial=False)
+            continue
+        sk = rng.randrange(1, R)
+        rec.case("honest:custom-suite", None, nontrivial=False)
+        honest(rec, key, Sx, sk, rng.randbytes(rng.choice([0, 32, 65])))
+        if key.startswith("pop"):
+            pop(rec, Sx, sk)
     # ---- refused keys (monitor M-bls.reject decides)
     for j, bad in enumerate(BAD_KEYS):
         if not rec.mine(j):
